@@ -336,6 +336,9 @@ impl<'a> FuseMem<'a> {
 def unit(root='/repo'):
     items = [
         Raw(MODEL),
+        # std::cmp::{min, max} on usize (the file imports `std::cmp`): verified definitions, so that a version of the code that uses them is still in reach
+        Raw('pub mod cmp {\n    use super::*;\n    pub fn min(a: usize, b: usize) -> (r: usize) ensures r == (if a <= b { a } else { b }) { if a <= b { a } else { b } }\n'
+            '    pub fn max(a: usize, b: usize) -> (r: usize) ensures r == (if a >= b { a } else { b }) { if a >= b { a } else { b } }\n}'),
         Copy(T, r"struct IoBuffers<'a, S>", prefix='#[verifier::reject_recursive_types(S)]'),
         Raw(SPEC),
         Group("impl<'a, S: BitmapSlice> IoBuffers<'a, S> {", iobuffers_fns()),
